@@ -461,6 +461,7 @@ pub fn feature_mix_program(t: &mut Tape) -> String {
     let mut decl_z = [false; 3];
     let mut used_cfg = false;
     let mut decl_cfg = false;
+    let mut decl_pc = false;
     let mut have_global = false;
     let faulty = t.chance(1, 5); // one case in five may carry a deliberate fault
     let call = |t: &mut Tape, arity: &Vec<usize>, faulty: bool| -> String {
@@ -590,7 +591,20 @@ pub fn feature_mix_program(t: &mut Tape) -> String {
                 }
                 s.push_str(&format!("#assert {}\n", a));
             }
-            16 => s.push_str(&format!("#d \"s{}\", 0x0{}\n", sym, t.draw(9))),
+            16 if t.flip() => s.push_str(&format!("#d \"s{}\", 0x0{}\n", sym, t.draw(9))),
+            16 => {
+                // a user constant spelled like the built-in `pc`, and uses of the name (which still mean the address)
+                if !decl_pc {
+                    decl_pc = true;
+                    s.push_str(&format!("pc = {}\n", t.draw(9)));
+                    have_global = false;
+                }
+                if has_rules {
+                    s.push_str(*t.pick(&["jmp pc\n", "ld pc\n", "#d8 pc\n", "jmp pc + 2\n"]));
+                } else {
+                    s.push_str("#d8 pc\n");
+                }
+            }
             _ => {
                 sym += 1;
                 let k = t.urange(1, 3);
